@@ -29,6 +29,8 @@
 """Handling for log actions."""
 
 import string
+
+import deep.logging
 from typing import TYPE_CHECKING, List, Dict, Optional
 
 from .action_context import ActionContext
@@ -67,8 +69,13 @@ class LogActionContext(ActionContext):
         _var_lookup = {}
 
         extractor = FormatExtractor(self, watch_results, _var_lookup)
-        log_msg = "[deep] %s" % extractor.vformat(log_msg, (), FormatDict(self.trigger_context.locals))
-        return log_msg, watch_results, _var_lookup
+        try:
+            text = extractor.vformat(log_msg, (), FormatDict(self.trigger_context.locals))
+        except Exception:
+            # a template we cannot take apart (e.g. a single brace): log it as it is, rather than lose the action
+            deep.logging.exception("Cannot format log message %s", log_msg)
+            text = log_msg
+        return "[deep] %s" % text, watch_results, _var_lookup
 
 
 class FormatDict(dict):
@@ -96,6 +103,68 @@ class FormatExtractor(string.Formatter):
         self.ctx = ctx
         self.watch_results = watch_results
         self.var_lookup = var_lookup
+
+    def parse(self, format_string):
+        """
+        Split the message into literal text and {expression} fields.
+
+        Everything between an unescaped '{' and its matching '}' is the expression. The format syntax of python would
+        cut it at the first ':' or '!' (format spec, conversion): d['a:b'], x != y, items[1:], lambda: ... are
+        expressions.
+        """
+        literal = []
+        i = 0
+        n = len(format_string)
+        while i < n:
+            c = format_string[i]
+            if c == '{':
+                if format_string.startswith('{{', i):
+                    literal.append('{')
+                    i += 2
+                    continue
+                end = self._end_of_field(format_string, i + 1)
+                if end < 0:
+                    raise ValueError("expected '}' before end of string")
+                yield ''.join(literal), format_string[i + 1:end], '', None
+                literal = []
+                i = end + 1
+            elif c == '}':
+                if format_string.startswith('}}', i):
+                    literal.append('}')
+                    i += 2
+                    continue
+                raise ValueError("Single '}' encountered in format string")
+            else:
+                literal.append(c)
+                i += 1
+        if literal:
+            yield ''.join(literal), None, None, None
+
+    @staticmethod
+    def _end_of_field(text, start):
+        """Find the '}' that closes the field starting at start (brackets and quotes in the expression are skipped)."""
+        depth = 0
+        quote = None
+        i = start
+        while i < len(text):
+            c = text[i]
+            if quote is not None:
+                if c == '\\':
+                    i += 1
+                elif c == quote:
+                    quote = None
+            elif c in '\'"':
+                quote = c
+            elif c in '{[(':
+                depth += 1
+            elif c in ')]':
+                depth -= 1
+            elif c == '}':
+                if depth <= 0:
+                    return i
+                depth -= 1
+            i += 1
+        return -1
 
     def get_field(self, field_name, args, kwargs):
         """Evaluate a field as a watch."""
